@@ -155,8 +155,14 @@ def recorded_piece_length(ctx, rid):
         return t[0] == "sub" and any(x[0] == "const" and x[1] == "piece length" for x in t[2])
     fl = Flow(ctx.prog, ctx.res)
     n = 0
-    for q in ("torrentfile.recheck:FeedChecker.__init__", "torrentfile.recheck:HashChecker.__init__"):
-        f = ctx.prog.func(q)
+    inits = []
+    for cq in ("torrentfile.recheck:FeedChecker", "torrentfile.recheck:HashChecker"):
+        # the constructor of the piece checker, and those of package base classes it shares with its sibling
+        for c in [ctx.prog.cls(cq)] + [b for b in ctx.prog.mro(ctx.prog.cls(cq)) if b is not ctx.prog.cls(cq)]:
+            f = c.methods.get("__init__")
+            if f is not None and f.module.name == "torrentfile.recheck" and (cq, f) not in inits and c.name != "ProgMixin":
+                inits.append((cq, f))
+    for cq, f in inits:
         for st in own_nodes(f.node):
             if not (isinstance(st, ast.Assign) and len(st.targets) == 1 and isinstance(st.targets[0], ast.Attribute) and isinstance(st.targets[0].value, ast.Name) and st.targets[0].value.id == f.self_name):
                 continue
@@ -165,7 +171,7 @@ def recorded_piece_length(ctx, rid):
                 continue
             n += 1
             other = [t for t in terms if not is_recorded(t)]
-            who = "%s.%s" % (f.cls.name, st.targets[0].attr)
+            who = "%s.%s" % (cq.split(":")[1], st.targets[0].attr)
             if not other:
                 ctx.holds(rid, f, "%s is the metafile's recorded piece length, taken verbatim" % who, who + " :: recorded piece length")
             else:
@@ -833,7 +839,18 @@ def digest_pairing(ctx, rid):
                 # self.width, assigned once in the class (a constant kept on the object)
                 vals = [n.value for m in fn.cls.methods.values() for n in own_nodes(m.node) if isinstance(n, ast.Assign) and len(n.targets) == 1
                         and isinstance(n.targets[0], ast.Attribute) and n.targets[0].attr == e.attr and isinstance(n.targets[0].value, ast.Name) and n.targets[0].value.id == m.self_name]
-                vals += fn.cls.class_assigns.get(e.attr, [])
+                # anything else that writes the attribute (a counter that is advanced, a deletion) makes it a variable, not a constant
+                writes = [n for c_ in [fn.cls] + list(ctx.prog.mro(fn.cls)) for m in c_.methods.values() for n in own_nodes(m.node)
+                          if isinstance(n, ast.Attribute) and n.attr == e.attr and isinstance(n.ctx, (ast.Store, ast.Del))]
+                if len(writes) > len(vals) or len(vals) > 1:
+                    return e
+                if not vals:
+                    # a class-level constant, looked up the way Python does: the first class of the MRO that defines it
+                    for c_ in [fn.cls] + [b for b in ctx.prog.mro(fn.cls) if b is not fn.cls]:
+                        if e.attr in c_.class_assigns:
+                            vals = list(c_.class_assigns[e.attr])
+                            break
+                    # (no subclass of this class may override it: the method analysed is the one of fn.cls itself)
                 if len(vals) == 1:
                     return expand(vals[0], depth + 1)
             return e
@@ -1272,7 +1289,8 @@ def path_mapping(ctx, rid):
                     changed = True
                     break
     walkers = []
-    for m in ck.methods.values():
+    # the walk may be a method of Checker or a module-level function of the recheck module (a leaf generator it calls)
+    for m in list(ck.methods.values()) + [f_ for f_ in ctx.prog.functions.values() if f_.module is ck.module and f_.cls is None and "<locals>" not in f_.qualname]:
         params = [p_ for p_ in m.params if p_ != m.self_name]
         for l in [n for n in own_nodes(m.node) if isinstance(n, ast.For)]:
             it = l.iter
